@@ -66,7 +66,8 @@ def enumerate_cases(tier):
                 yield {"form": form, "meta": {"pattern": list(pat)}}
 
 
-SPELLINGS = {"g": [("begin group", "end group"), ("begin_group", "end_group"), ("Begin Group", "End Group")],
+SPELLINGS = {"g": [("begin group", "end group"), ("begin_group", "end_group"), ("Begin Group", "End Group"), ("begin group extra", "end group"),
+                   ("begin loop over LIST", "end loop"), ("begin_loop over LIST", "end_loop")],
              "r": [("begin repeat", "end repeat"), ("begin_repeat", "end_repeat"), ("begin lgroup", "end lgroup"), ("begin looped group", "end looped group")]}
 BAD_DATASET = {"__people": "reserved", "peo.ple": "period", "1people": "invalid", "peo ple": "invalid", "$x": "invalid"}
 BAD_PROP = {"name": "reserved", "Label": "reserved", "NAME": "reserved", "__x": "reserved-prefix", "1x": "invalid", "a b": "invalid"}
@@ -118,6 +119,19 @@ def _cases(draw):
     if g.p("_", 0.06):
         form["entities"].append({"dataset": "second", "label": "'l'"})
         meta["bad"].append("two-rows")
+    if names and g.p("_", 0.12):
+        # a question may be called like the generated meta/entity node: ${entity} still means the question
+        old_name = g.pick(names)
+        if not any(n_["c"].get("name") == "entity" for n_, _ in model.walk(form["nodes"])):
+            for n_, _ in model.walk(form["nodes"]):
+                for kk, vv in list(n_["c"].items()):
+                    if kk == "name" and vv == old_name:
+                        n_["c"][kk] = "entity"
+                    elif isinstance(vv, str) and "{%s}" % old_name in vv:
+                        n_["c"][kk] = vv.replace("{%s}" % old_name, "{entity}")
+            for kk, vv in list(row.items()):
+                row[kk] = vv.replace("{%s}" % old_name, "{entity}")
+            meta["entity_named_question"] = True
     k = g.integer(0, 4)
     cont = [(n, anc) for n, anc in model.walk(form["nodes"]) if n["k"] in ("g", "r")]
     for _ in range(k):
@@ -126,6 +140,11 @@ def _cases(draw):
             # every documented spelling of the container rows; the cell may sit on the begin row or on the end row
             if g.p("_", 0.5):
                 b, e = g.pick(SPELLINGS[n["k"]])
+                if "LIST" in b:
+                    # a loop needs a choice list to run over
+                    if not form.get("lists"):
+                        form["lists"] = [{"name": "lp", "rows": [{"name": "c1", "label": "One"}]}]
+                    b = b.replace("LIST", form["lists"][0]["name"])
                 n["c"]["type"] = b
                 n["end"] = {"type": e}
             if g.p("_", 0.25):
